@@ -198,7 +198,7 @@ def forward (op : BinOp) (s : IV) (o : Opd) : Except Err Opd :=
       let (_, hi) ← bzip (· - ·) s.sh s.hi (some l.length) l
       mkIV sh lo hi
   | .add, .B _ => .error .Type
-  | .sub, .B _ => .error .Unbound
+  | .sub, .B _ => .error .Type
   | .mul, .N x | .mul, .S x => mulNum s x
   | .mul, .Z x => arrRight false s none [x]
   | .mul, .V xs => arrRight false s (some xs.length) xs
@@ -210,7 +210,7 @@ def forward (op : BinOp) (s : IV) (o : Opd) : Except Err Opd :=
   | .div, .V xs => arrRight true s (some xs.length) xs
   | .div, .I a b => divide s (IV.ofI a b) >>= finishTable
   | .div, .A l h => divide s (IV.ofA l h) >>= finishTable
-  | .div, .B _ => .error .Unbound
+  | .div, .B _ => .error .Type
 
 /-- `x - self` for a scalar number `x` -/
 def rsubNum (s : IV) (x : Rat) : Except Err Opd :=
